@@ -176,12 +176,18 @@ func (vc *VC) addSpec(sf *SpecFile, pkg *packages.Package) error {
 		case "interface":
 			full, err := vc.qualify(c.Name, pkg, 2)
 			if err != nil {
+				if pkg == nil {
+					continue // dependency not loaded for this property
+				}
 				return fmt.Errorf("%s:%d: %v", c.File, c.Line, err)
 			}
 			vc.ifaceCon[full] = c
 		case "field":
 			full, err := vc.qualify(c.Name, pkg, 2)
 			if err != nil {
+				if pkg == nil {
+					continue
+				}
 				return fmt.Errorf("%s:%d: %v", c.File, c.Line, err)
 			}
 			vc.fieldCon[full] = c
